@@ -31,7 +31,19 @@ const (
 type Dimensions struct {
 	W, H int
 	D    uint8
+	G    Grade
 }
+
+// Grade is an integer enum that knows how to print itself.
+type Grade int
+
+const (
+	Low Grade = iota
+	Mid
+	High
+)
+
+func (g Grade) String() string { return [...]string{"Low", "Mid", "High"}[g] }
 
 type Labels []string
 
